@@ -70,6 +70,9 @@ namespace riddle
             case STRING_ID:
             case LBRACE_ID:
             case BANG_ID:
+            case LPAREN_ID:
+            case PLUS_ID:
+            case MINUS_ID:
             case FACT_ID:
             case GOAL_ID:
             case BoolLiteral_ID:
